@@ -314,21 +314,29 @@ def _code_tokens(lang, text):
         toks = [(off, val) for off, tt, val in get_lexer_by_name(P.LEXER[lang]).get_tokens_unprocessed(text)
                 if val.strip() and tt not in T.Comment]
         nl = [i for i, ch in enumerate(text) if ch == "\n"]
+        depth, depths = 0, []
+        for _, v in toks:
+            if v == "(":
+                depth += 1
+            elif v == ")":
+                depth = max(0, depth - 1)
+            depths.append(depth)  # parenthesis depth AFTER this token
         if len(_CODE_CACHE) > 64:
             _CODE_CACHE.clear()
-        _CODE_CACHE[key] = ([t[0] for t in toks], [t[1] for t in toks], nl)
+        _CODE_CACHE[key] = ([t[0] for t in toks], [t[1] for t in toks], nl, depths)
     return _CODE_CACHE[key]
 
 
 def in_header_region(lang, text, line):
     """C / C++ only: the end of `line` (1-based; 0 = start of file) lies inside a declaration header, i.e. the last code
     token before it does not end a statement or block (';', '{', '}') or the next code token is '{'."""
-    offs, vals, nl = _code_tokens(lang, text)
+    offs, vals, nl, depths = _code_tokens(lang, text)
     pos = nl[line - 1] if 0 < line <= len(nl) else (0 if line == 0 else len(text))
     k = bisect.bisect_left(offs, pos)
     prev = vals[k - 1] if k > 0 else None
     nxt = vals[k] if k < len(vals) else None
-    return (prev is not None and prev[-1:] not in (";", "{", "}")) or nxt == "{"
+    inside_parens = k > 0 and depths[k - 1] > 0
+    return inside_parens or (prev is not None and prev[-1:] not in (";", "{", "}")) or nxt == "{"
 
 
 def withhold_known(lang, text, edits, known):
